@@ -137,80 +137,154 @@ def notCatchPS : Instr → Bool
   | .catchPS => false
   | _ => true
 
-/-- the abstract transitions of the shape view -/
-inductive SStep (P : Prog) : SV → SV → Prop
-  | stutter (v : SV) : SStep P v v
+/-- the abstract transitions of the shape view: `SStepE P v evs v'` — from `v` to `v'`, adding the shape
+events `evs` (newest first) -/
+inductive SStepE (P : Prog) : SV → List Tr → SV → Prop
+  | stutter (v : SV) : SStepE P v [] v
   | batch {v : SV} {h : Instr} {rest B : List Instr} {evs : List Tr} :
-      v.code = h :: rest → Batch P v h B evs → SStep P v { v with code := B ++ rest, ev := evs ++ v.ev }
+      v.code = h :: rest → Batch P v h B evs → SStepE P v evs { v with code := B ++ rest, ev := evs ++ v.ev }
   | halt {v : SV} {h : Instr} {rest : List Instr} :
-      v.code = h :: rest → h.canHalt = true → SStep P v { v with code := rest }
+      v.code = h :: rest → h.canHalt = true → SStepE P v [] { v with code := rest }
   | raise {v : SV} {h : Instr} {rest : List Instr} {k : Kind} :
-      v.code = h :: rest → h.canRaise k = true → SStep P v (raisedSV k { v with code := rest })
+      v.code = h :: rest → h.canRaise k = true → SStepE P v (exitEv k) (raisedSV k { v with code := rest })
   | kill {v : SV} {s : Sig} {rest : List Instr} :
-      v.code = .kill s :: rest → SStep P v { v with code := [], ev := .kill :: v.ev }
+      v.code = .kill s :: rest → SStepE P v [.kill] { v with code := [], ev := .kill :: v.ev }
   | forceQuit {v : SV} {rest : List Instr} :
       v.code = .act .forceQuit :: rest →
-      SStep P v { v with code := rest, forceQuit := true, levels := [], runLoop := false, ev := .forceQuit :: v.ev }
+      SStepE P v [.forceQuit]
+        { v with code := rest, forceQuit := true, levels := [], runLoop := false, ev := .forceQuit :: v.ev }
   | schedule {v : SV} {rest : List Instr} {scr : Nat} {args : Option Nat} :
       v.code = .act (.schedule scr args) :: rest →
-      SStep P v { v with code := rest, stack := ⟨v.nextEid, scr, args, false⟩ :: v.stack, nextEid := v.nextEid + 1,
-                         ev := .stackOp "schedule" (⟨v.nextEid, scr, args, false⟩ :: v.stack) :: v.ev }
+      SStepE P v [.stackOp "schedule" (⟨v.nextEid, scr, args, false⟩ :: v.stack)]
+        { v with code := rest, stack := ⟨v.nextEid, scr, args, false⟩ :: v.stack, nextEid := v.nextEid + 1,
+                 ev := .stackOp "schedule" (⟨v.nextEid, scr, args, false⟩ :: v.stack) :: v.ev }
   | pushScr {v : SV} {rest : List Instr} {scr : Nat} {args : Option Nat} :
       v.code = .act (.push scr args) :: rest →
-      SStep P v { v with code := rest, stack := v.stack ++ [⟨v.nextEid, scr, args, false⟩], nextEid := v.nextEid + 1,
-                         ev := .stackOp "push" (v.stack ++ [⟨v.nextEid, scr, args, false⟩]) :: v.ev }
+      SStepE P v [.stackOp "push" (v.stack ++ [⟨v.nextEid, scr, args, false⟩])]
+        { v with code := rest, stack := v.stack ++ [⟨v.nextEid, scr, args, false⟩], nextEid := v.nextEid + 1,
+                 ev := .stackOp "push" (v.stack ++ [⟨v.nextEid, scr, args, false⟩]) :: v.ev }
   | replace {v : SV} {rest : List Instr} {scr : Nat} {args : Option Nat} {old : Entry} :
       v.code = .act (.replace scr args) :: rest → v.stack.getLast? = some old →
-      SStep P v { v with code := rest, stack := v.stack.dropLast ++ [⟨v.nextEid, scr, args, old.modal⟩],
-                         nextEid := v.nextEid + 1,
-                         ev := .stackOp "replace" (v.stack.dropLast ++ [⟨v.nextEid, scr, args, old.modal⟩]) :: v.ev }
+      SStepE P v [.stackOp "replace" (v.stack.dropLast ++ [⟨v.nextEid, scr, args, old.modal⟩])]
+        { v with code := rest, stack := v.stack.dropLast ++ [⟨v.nextEid, scr, args, old.modal⟩],
+                 nextEid := v.nextEid + 1,
+                 ev := .stackOp "replace" (v.stack.dropLast ++ [⟨v.nextEid, scr, args, old.modal⟩]) :: v.ev }
   | apprun {v : SV} {rest : List Instr} :
       v.code = .apprun :: rest →
-      SStep P v { v with code := [.mainCheck 0, .catchExit, .quitCb] ++ rest, forceQuit := false, runLoop := true }
+      SStepE P v [] { v with code := [.mainCheck 0, .catchExit, .quitCb] ++ rest, forceQuit := false, runLoop := true }
   | restore {v : SV} {rest : List Instr} :
-      v.code = .restoreRun :: rest → v.forceQuit = false → SStep P v { v with code := rest, runLoop := true }
+      v.code = .restoreRun :: rest → v.forceQuit = false → SStepE P v [] { v with code := rest, runLoop := true }
   | «open» {v : SV} {rest : List Instr} {s : Sig} :
       v.code = .newLoop s :: rest → v.forceQuit = false →
-      SStep P v { v with code := .mainCheck v.nq :: rest, levels := v.levels ++ [v.nq], active := v.nq, nq := v.nq + 1,
-                         ev := .openLevel v.nq v.runLoop :: v.ev }
+      SStepE P v [.openLevel v.nq v.runLoop]
+        { v with code := .mainCheck v.nq :: rest, levels := v.levels ++ [v.nq], active := v.nq, nq := v.nq + 1,
+                 ev := .openLevel v.nq v.runLoop :: v.ev }
   | pop {v : SV} {rest : List Instr} {q a : Nat} :
       v.code = .popLevel :: rest → v.levels.getLast? = some q → v.levels.dropLast.getLast? = some a →
-      SStep P v { v with code := rest, levels := v.levels.dropLast, active := a, runLoop := false,
-                         ev := .closeLevel q :: v.ev }
+      SStepE P v [.closeLevel q]
+        { v with code := rest, levels := v.levels.dropLast, active := a, runLoop := false,
+                 ev := .closeLevel q :: v.ev }
   | popExit {v : SV} {rest : List Instr} {q : Nat} :
       v.code = .popLevel :: rest → v.levels.getLast? = some q → v.levels.dropLast.getLast? = none →
-      SStep P v (raisedSV .exit { v with code := rest, levels := [], ev := .closeLevel q :: v.ev })
+      SStepE P v [.exit, .closeLevel q]
+        (raisedSV .exit { v with code := rest, levels := [], ev := .closeLevel q :: v.ev })
   | pushModal {v : SV} {rest : List Instr} {scr : Nat} {args : Option Nat} {s : Sig} :
       v.code = .pushModal scr args :: rest →
-      SStep P v { v with code := .newLoop s :: .modalRet ⟨v.nextEid, scr, args, true⟩ :: rest,
-                         stack := v.stack ++ [⟨v.nextEid, scr, args, true⟩], nextEid := v.nextEid + 1,
-                         ev := .modalBegin ⟨v.nextEid, scr, args, true⟩ ::
-                               .stackOp "pushModal" (v.stack ++ [⟨v.nextEid, scr, args, true⟩]) :: v.ev }
+      SStepE P v [.modalBegin ⟨v.nextEid, scr, args, true⟩, .stackOp "pushModal" (v.stack ++ [⟨v.nextEid, scr, args, true⟩])]
+        { v with code := .newLoop s :: .modalRet ⟨v.nextEid, scr, args, true⟩ :: rest,
+                 stack := v.stack ++ [⟨v.nextEid, scr, args, true⟩], nextEid := v.nextEid + 1,
+                 ev := .modalBegin ⟨v.nextEid, scr, args, true⟩ ::
+                       .stackOp "pushModal" (v.stack ++ [⟨v.nextEid, scr, args, true⟩]) :: v.ev }
   | closeScreen {v : SV} {rest : List Instr} {frm : Option Src} {e : Entry} :
       v.code = .closeScreen frm :: rest → v.stack.getLast? = some e →
-      SStep P v { v with code := .callScr e.screen .closed none none :: .closeScreen2 e frm :: rest,
-                         stack := v.stack.dropLast, ev := .stackOp "close" v.stack.dropLast :: v.ev }
+      SStepE P v [.stackOp "close" v.stack.dropLast]
+        { v with code := .callScr e.screen .closed none none :: .closeScreen2 e frm :: rest,
+                 stack := v.stack.dropLast, ev := .stackOp "close" v.stack.dropLast :: v.ev }
   | discard {v : SV} {rest : List Instr} {top e : Entry} :
       v.code = .afterSetup top :: rest → v.stack.getLast? = some e →
-      SStep P v { v with code := (if e.modal then [.closeLoop, .afterSetupFail e] else []) ++ rest,
-                         stack := v.stack.dropLast, ev := .stackOp "discard" v.stack.dropLast :: v.ev }
+      SStepE P v [.stackOp "discard" v.stack.dropLast]
+        { v with code := (if e.modal then [.closeLoop, .afterSetupFail e] else []) ++ rest,
+                 stack := v.stack.dropLast, ev := .stackOp "discard" v.stack.dropLast :: v.ev }
   | identSkip {v : SV} {rest : List Instr} {top l : Entry} :
       v.code = .identCheck top :: rest → v.stack.getLast? = some l → l.eid ≠ top.eid →
-      SStep P v { v with code := rest.dropWhile notCatchPS }
+      SStepE P v [] { v with code := rest.dropWhile notCatchPS }
+
+/-- an abstract transition, whatever events it adds -/
+def SStep (P : Prog) (v v' : SV) : Prop := ∃ evs, SStepE P v evs v'
 
 namespace Shape
 
+theorem SStep.stutter {P : Prog} (v : SV) : SStep P v v := ⟨_, .stutter v⟩
+theorem SStep.kill {P : Prog} {v : SV} {s : Sig} {rest : List Instr} (h : v.code = .kill s :: rest) :
+    SStep P v { v with code := [], ev := .kill :: v.ev } := ⟨_, .kill h⟩
+theorem SStep.forceQuit {P : Prog} {v : SV} {rest : List Instr} (h : v.code = .act .forceQuit :: rest) :
+    SStep P v { v with code := rest, forceQuit := true, levels := [], runLoop := false, ev := .forceQuit :: v.ev } :=
+  ⟨_, .forceQuit h⟩
+theorem SStep.schedule {P : Prog} {v : SV} {rest : List Instr} {scr : Nat} {args : Option Nat}
+    (h : v.code = .act (.schedule scr args) :: rest) :
+    SStep P v { v with code := rest, stack := ⟨v.nextEid, scr, args, false⟩ :: v.stack, nextEid := v.nextEid + 1,
+                       ev := .stackOp "schedule" (⟨v.nextEid, scr, args, false⟩ :: v.stack) :: v.ev } :=
+  ⟨_, .schedule h⟩
+theorem SStep.pushScr {P : Prog} {v : SV} {rest : List Instr} {scr : Nat} {args : Option Nat}
+    (h : v.code = .act (.push scr args) :: rest) :
+    SStep P v { v with code := rest, stack := v.stack ++ [⟨v.nextEid, scr, args, false⟩], nextEid := v.nextEid + 1,
+                       ev := .stackOp "push" (v.stack ++ [⟨v.nextEid, scr, args, false⟩]) :: v.ev } :=
+  ⟨_, .pushScr h⟩
+theorem SStep.replace {P : Prog} {v : SV} {rest : List Instr} {scr : Nat} {args : Option Nat} {old : Entry}
+    (h : v.code = .act (.replace scr args) :: rest) (ho : v.stack.getLast? = some old) :
+    SStep P v { v with code := rest, stack := v.stack.dropLast ++ [⟨v.nextEid, scr, args, old.modal⟩],
+                       nextEid := v.nextEid + 1,
+                       ev := .stackOp "replace" (v.stack.dropLast ++ [⟨v.nextEid, scr, args, old.modal⟩]) :: v.ev } :=
+  ⟨_, .replace h ho⟩
+theorem SStep.apprun {P : Prog} {v : SV} {rest : List Instr} (h : v.code = .apprun :: rest) :
+    SStep P v { v with code := [.mainCheck 0, .catchExit, .quitCb] ++ rest, forceQuit := false, runLoop := true } :=
+  ⟨_, .apprun h⟩
+theorem SStep.restore {P : Prog} {v : SV} {rest : List Instr} (h : v.code = .restoreRun :: rest)
+    (hf : v.forceQuit = false) : SStep P v { v with code := rest, runLoop := true } := ⟨_, .restore h hf⟩
+theorem SStep.open {P : Prog} {v : SV} {rest : List Instr} {s : Sig} (h : v.code = .newLoop s :: rest)
+    (hf : v.forceQuit = false) :
+    SStep P v { v with code := .mainCheck v.nq :: rest, levels := v.levels ++ [v.nq], active := v.nq, nq := v.nq + 1,
+                       ev := .openLevel v.nq v.runLoop :: v.ev } := ⟨_, .open h hf⟩
+theorem SStep.pop {P : Prog} {v : SV} {rest : List Instr} {q a : Nat} (h : v.code = .popLevel :: rest)
+    (hq : v.levels.getLast? = some q) (ha : v.levels.dropLast.getLast? = some a) :
+    SStep P v { v with code := rest, levels := v.levels.dropLast, active := a, runLoop := false,
+                       ev := .closeLevel q :: v.ev } := ⟨_, .pop h hq ha⟩
+theorem SStep.popExit {P : Prog} {v : SV} {rest : List Instr} {q : Nat} (h : v.code = .popLevel :: rest)
+    (hq : v.levels.getLast? = some q) (ha : v.levels.dropLast.getLast? = none) :
+    SStep P v (raisedSV .exit { v with code := rest, levels := [], ev := .closeLevel q :: v.ev }) :=
+  ⟨_, .popExit h hq ha⟩
+theorem SStep.pushModal {P : Prog} {v : SV} {rest : List Instr} {scr : Nat} {args : Option Nat} {s : Sig}
+    (h : v.code = .pushModal scr args :: rest) :
+    SStep P v { v with code := .newLoop s :: .modalRet ⟨v.nextEid, scr, args, true⟩ :: rest,
+                       stack := v.stack ++ [⟨v.nextEid, scr, args, true⟩], nextEid := v.nextEid + 1,
+                       ev := .modalBegin ⟨v.nextEid, scr, args, true⟩ ::
+                             .stackOp "pushModal" (v.stack ++ [⟨v.nextEid, scr, args, true⟩]) :: v.ev } :=
+  ⟨_, .pushModal h⟩
+theorem SStep.closeScreen {P : Prog} {v : SV} {rest : List Instr} {frm : Option Src} {e : Entry}
+    (h : v.code = .closeScreen frm :: rest) (he : v.stack.getLast? = some e) :
+    SStep P v { v with code := .callScr e.screen .closed none none :: .closeScreen2 e frm :: rest,
+                       stack := v.stack.dropLast, ev := .stackOp "close" v.stack.dropLast :: v.ev } :=
+  ⟨_, .closeScreen h he⟩
+theorem SStep.discard {P : Prog} {v : SV} {rest : List Instr} {top e : Entry}
+    (h : v.code = .afterSetup top :: rest) (he : v.stack.getLast? = some e) :
+    SStep P v { v with code := (if e.modal then [.closeLoop, .afterSetupFail e] else []) ++ rest,
+                       stack := v.stack.dropLast, ev := .stackOp "discard" v.stack.dropLast :: v.ev } :=
+  ⟨_, .discard h he⟩
+theorem SStep.identSkip {P : Prog} {v : SV} {rest : List Instr} {top l : Entry}
+    (h : v.code = .identCheck top :: rest) (hl : v.stack.getLast? = some l) (hne : l.eid ≠ top.eid) :
+    SStep P v { v with code := rest.dropWhile notCatchPS } := ⟨_, .identSkip h hl hne⟩
+
 theorem SStep.batch' {P : Prog} {v v' : SV} {h : Instr} {rest B : List Instr} {evs : List Tr}
     (hc : v.code = h :: rest) (hb : Batch P v h B evs) (hv : v' = { v with code := B ++ rest, ev := evs ++ v.ev }) :
-    SStep P v v' := hv ▸ SStep.batch hc hb
+    SStep P v v' := hv ▸ ⟨_, SStepE.batch hc hb⟩
 
 theorem SStep.raise' {P : Prog} {v v' : SV} {h : Instr} {rest : List Instr} (k : Kind)
     (hc : v.code = h :: rest) (hr : h.canRaise k = true) (hv : v' = raisedSV k { v with code := rest }) :
-    SStep P v v' := hv ▸ SStep.raise hc hr
+    SStep P v v' := hv ▸ ⟨_, SStepE.raise hc hr⟩
 
 theorem SStep.halt' {P : Prog} {v v' : SV} {h : Instr} {rest : List Instr}
     (hc : v.code = h :: rest) (hr : h.canHalt = true) (hv : v' = { v with code := rest }) :
-    SStep P v v' := hv ▸ SStep.halt hc hr
+    SStep P v v' := hv ▸ ⟨_, SStepE.halt hc hr⟩
 
 /-- the step and its trace growth, packaged -/
 def StepOK (P : Prog) (c : Cfg) : Prop :=
